@@ -446,7 +446,7 @@ theorem denseOK_of_facts (g : Geometry) (T : Mat) (thr : Rat) (hwf : DenseWF g T
         | some sh => sh.getD c 0 == sh.getD best 0
         | none => true) = true ∧
       c ∈ closestChannels g best) :
-    denseOK g T thr ⟨T.map fun row => ids.map fun c => row.getD c 0, ids, amp', best⟩ = true := by
+    denseBaseOK g T thr ⟨T.map fun row => ids.map fun c => row.getD c 0, ids, amp', best⟩ = true := by
   obtain ⟨_, hnc, _, hpos, _, hposnd⟩ := hwf
   have hlen := chAmps_length T
   have hne : chAmps T ≠ [] := by
@@ -464,7 +464,7 @@ theorem denseOK_of_facts (g : Geometry) (T : Mat) (thr : Rat) (hwf : DenseWF g T
       have := mul_le_mul_of_nonneg_right h1 hmx0
       linarith
     · cases g.shanks <;> simp
-  unfold denseOK
+  unfold denseBaseOK
   simp only [Bool.and_eq_true]
   refine ⟨⟨⟨⟨⟨⟨⟨?_, ?_⟩, ?_⟩, ?_⟩, ?_⟩, ?_⟩, ?_⟩, ?_⟩
   · -- alignment
@@ -538,11 +538,11 @@ theorem denseOK_of_facts (g : Geometry) (T : Mat) (thr : Rat) (hwf : DenseWF g T
       subst hm
       cases hcc : cond <;> cases hi : ids.contains c <;> cases mustNot <;> simp_all
 
-theorem dense_record_ok (g : Geometry) (T : Mat) (thr : Rat) (hwf : DenseWF g T)
+theorem dense_base_ok (g : Geometry) (T : Mat) (thr : Rat) (hwf : DenseWF g T)
     (h0 : 0 ≤ thr) (h1 : thr ≤ 1) :
     let (ids, amp, best) := findBestChannels g T thr
-    denseOK g T thr ⟨T.map fun row => ids.map fun c => row.getD c 0, ids, amp, best⟩ = true := by
-  show denseOK g T thr ⟨T.map fun row => (findBestChannels g T thr).1.map fun c => row.getD c 0,
+    denseBaseOK g T thr ⟨T.map fun row => ids.map fun c => row.getD c 0, ids, amp, best⟩ = true := by
+  show denseBaseOK g T thr ⟨T.map fun row => (findBestChannels g T thr).1.map fun c => row.getD c 0,
     (findBestChannels g T thr).1, (findBestChannels g T thr).2.1,
     (findBestChannels g T thr).2.2⟩ = true
   apply denseOK_of_facts g T thr hwf h0 h1 _ _ _ (findBest_best g T thr) (findBest_amp g T thr)
@@ -551,9 +551,9 @@ theorem dense_record_ok (g : Geometry) (T : Mat) (thr : Rat) (hwf : DenseWF g T)
   rw [(findBest_perm g T thr).mem_iff, findBest_best]
   exact mem_ids0 g T thr c
 
-theorem getTemplateDense_auto (g : Geometry) (wmi Tw : Mat) (thr : Rat) (unwh : Bool) :
-    getTemplateDense g wmi Tw none thr unwh =
-      (let T := if unwh then unwhiten wmi Tw none else Tw
+theorem getTemplateDense_auto (g : Geometry) (wmi : Mat) (sc : Rat) (Tw : Mat) (thr : Rat) (unwh : Bool) :
+    getTemplateDense g wmi sc Tw none thr unwh =
+      (let T := if unwh then unwhiten wmi sc Tw none else Tw
        let r := findBestChannels g T thr
        ⟨T.map fun row => r.1.map fun c => row.getD c 0, r.1, r.2.1, r.2.2⟩) := by
   rfl
@@ -567,18 +567,18 @@ theorem col_sub (T : Mat) (l : List Nat) (j : Nat) (hj : j < l.length) :
   simp [List.getD_eq_getElem?_getD, hj]
 
 set_option linter.unusedVariables false in -- unused hypotheses kept: public statement
-theorem dense_explicit_ok (g : Geometry) (wmi Tw : Mat) (l : List Nat) (thr : Rat) (unwh : Bool)
-    (hwf : DenseWF g (if unwh then unwhiten wmi Tw none else Tw))
-    (hl : ∀ c ∈ l, c < ncols (if unwh then unwhiten wmi Tw none else Tw)) :
-    denseExplicitOK (if unwh then unwhiten wmi Tw none else Tw) l
-      (getTemplateDense g wmi Tw (some l) thr unwh) = true := by
-  have hrec : getTemplateDense g wmi Tw (some l) thr unwh =
-      (let T := if unwh then unwhiten wmi Tw none else Tw
+theorem dense_explicit_ok (g : Geometry) (wmi : Mat) (sc : Rat) (Tw : Mat) (l : List Nat) (thr : Rat) (unwh : Bool)
+    (hwf : DenseWF g (if unwh then unwhiten wmi sc Tw none else Tw))
+    (hl : ∀ c ∈ l, c < ncols (if unwh then unwhiten wmi sc Tw none else Tw)) :
+    denseExplicitOK (if unwh then unwhiten wmi sc Tw none else Tw) l
+      (getTemplateDense g wmi sc Tw (some l) thr unwh) = true := by
+  have hrec : getTemplateDense g wmi sc Tw (some l) thr unwh =
+      (let T := if unwh then unwhiten wmi sc Tw none else Tw
        ⟨T.map fun row => l.map fun c => row.getD c 0, l,
         getTemplateDense.chAmps' (T.map fun row => l.map fun c => row.getD c 0) l.length,
         argmaxFirst (chAmps T)⟩) := rfl
   rw [hrec]
-  generalize (if unwh then unwhiten wmi Tw none else Tw) = T at hwf hl
+  generalize (if unwh then unwhiten wmi sc Tw none else Tw) = T at hwf hl
   show denseExplicitOK T l ⟨T.map fun row => l.map fun c => row.getD c 0, l,
     getTemplateDense.chAmps' (T.map fun row => l.map fun c => row.getD c 0) l.length,
     argmaxFirst (chAmps T)⟩ = true
@@ -686,20 +686,17 @@ theorem sparseOK_generic (ch : List Nat) (Tk : Mat) (hnd : ch.Nodup) :
       rw [idxOf_getD ch hnd _ (hal ▸ hblt), hbmx]; exact beq_self_eq_true _
 
 set_option linter.unusedVariables false in -- unused hypotheses kept: public statement
-theorem sparse_record_ok (wmi Tw : Mat) (cols : List Int) (unwh : Bool)
+theorem sparse_record_ok (wmi : Mat) (sc : Rat) (Tw : Mat) (cols : List Int) (m : Int) (unwh : Bool)
     (hrect : ∀ row ∈ Tw, row.length = cols.length) (hT : Tw ≠ [])
-    (hcols : ∀ c ∈ cols, c = -1 ∨ 0 ≤ c) (hdist : (cols.filter (· ≠ -1)).Nodup) :
-    let k := cols.length
-    let tmax := (List.range k).map fun j => listMax ((col Tw j).map fun x => if x < 0 then -x else x)
-    let keep := (List.range k).filter fun j =>
-      decide (tmax.getD j 0 > listMax tmax * (1 / 1000000)) && cols.getD j 0 != -1
+    (hcols : ∀ c ∈ cols, c = m ∨ 0 ≤ c) (hdist : (cols.filter (· ≠ m)).Nodup) :
+    let keep := keptCols Tw cols m
     let ch := keep.map fun j => (cols.getD j 0).toNat
     let sub : Mat := Tw.map fun row => keep.map fun j => row.getD j 0
-    sparseOK ch (if unwh then unwhiten wmi sub (some ch) else sub)
-      (getTemplateSparse wmi Tw cols unwh) = true := by
-  intro k tmax keep ch sub
-  have hrec : getTemplateSparse wmi Tw cols unwh =
-      (let Tk := if unwh then unwhiten wmi sub (some ch) else sub
+    sparseOK ch (if unwh then unwhiten wmi sc sub (some ch) else sub)
+      (getTemplateSparse wmi sc Tw cols m unwh) = true := by
+  intro keep ch sub
+  have hrec : getTemplateSparse wmi sc Tw cols m unwh =
+      (let Tk := if unwh then unwhiten wmi sc sub (some ch) else sub
        let amp := (List.range keep.length).map fun j => ptp (col Tk j)
        let order := argsortDesc amp
        ⟨Tk.map fun row => order.map fun j => row.getD j 0, order.map fun j => ch.getD j 0,
@@ -708,21 +705,18 @@ theorem sparse_record_ok (wmi Tw : Mat) (cols : List Int) (unwh : Bool)
   have hchlen : keep.length = ch.length := by simp [ch]
   rw [hchlen]
   have hnd : ch.Nodup := by
-    have hsub : (keep.map fun j => cols.getD j 0).Sublist (cols.filter (· ≠ -1)) := by
-      have hc : cols.filter (· ≠ -1)
-          = ((List.range k).filter fun j => cols.getD j 0 != -1).map fun j => cols.getD j 0 := by
+    have hsub : (keep.map fun j => cols.getD j 0).Sublist (cols.filter (· ≠ m)) := by
+      have hc : cols.filter (· ≠ m) = (usedCols cols m).map fun j => cols.getD j 0 := by
+        unfold usedCols
         conv => lhs; rw [← range_map_getD cols 0, List.filter_map]
         congr 1
         apply List.filter_congr
         intro j _
-        show decide (cols.getD j 0 ≠ -1) = (cols.getD j 0 != -1)
+        show decide (cols.getD j 0 ≠ m) = (cols.getD j 0 != m)
         generalize cols.getD j 0 = x
-        by_cases h : x = -1 <;> simp [h]
+        by_cases h : x = m <;> simp [h]
       rw [hc]
       apply List.Sublist.map
-      show ((List.range k).filter fun j =>
-        decide (tmax.getD j 0 > listMax tmax * (1 / 1000000)) && cols.getD j 0 != -1).Sublist _
-      rw [← List.filter_filter]
       exact List.filter_sublist
     have hnd1 : (keep.map fun j => cols.getD j 0).Nodup := List.Nodup.sublist hsub hdist
     have hch : ch = (keep.map fun j => cols.getD j 0).map Int.toNat := by
